@@ -425,6 +425,19 @@ func runCheck(id, tier string) int {
 		merged.Conformance += int64(compiled)
 		merged.Counters["packages_compiled_vetted_initialised"] = int64(compiled)
 		for _, v := range viols {
+			listed := false
+			for _, f := range loadFindings() {
+				if v.Known != "" && f.ID == v.Known && f.Property == id && !f.Fixed {
+					listed = true
+				}
+			}
+			if listed {
+				merged.Known[v.Known]++
+				if _, ok := merged.KnownSamples[v.Known]; !ok {
+					merged.KnownSamples[v.Known] = v
+				}
+				continue
+			}
 			merged.NViolations++
 			merged.Violations = append(merged.Violations, v)
 		}
